@@ -67,6 +67,14 @@ def write (M : Nat) (s : Shared) (xs : List UInt8) : Res Int :=
         | none => .fault
         | some d2 => .ok { s with data := d2, wr := wr' } xs.length
 
+/-- `p_shm_buffer_write` of `n` zero bytes.  Same function (theorem `writeZeros_eq_write`); written so that a
+    length far beyond the capacity (2^32 + 1, …) is answered from the free-space test of the C code without
+    building the byte list. -/
+def writeZeros (M : Nat) (s : Shared) (n : Nat) : Res Int :=
+  if n ≠ 0 ∧ freeSpace M s < n then .ok s 0
+  else if s.data.length + M < n then .fault      -- passed the free-space test (corrupted positions) but cannot lie inside the data area
+  else write M s (List.replicate n 0)
+
 /-- `p_shm_buffer_read`; returns the copied bytes and the `pint` result. -/
 def read (M : Nat) (s : Shared) (len : Nat) : Res (List UInt8 × Int) :=
   if len = 0 then .ok s ([], -1)
